@@ -21,6 +21,7 @@ import r_shape
 import r_family
 import r_rngprov
 import r_dispatch
+import r_range
 import witness
 
 
@@ -438,6 +439,57 @@ def c12(facts, tier):
     return rep
 
 
+def c09(facts, tier):
+    rep = Report("C09", tier, facts,
+                 "R-RANGE: k*q interval abstract interpretation of the transform core's SOURCE (ModArithLazy's add / sub / "
+                 "mul_root / mul_scalar / guard, the butterfly bodies of DWTHandler::transform_to_rev / transform_from_rev "
+                 "bound to those summaries, the NTTTables epilogues) for a symbolic modulus below 2^61: butterfly "
+                 "invariants are inductive below 8q from canonical and from the documented lazy input ranges, no addition "
+                 "can wrap, no subtraction can underflow, the non-lazy forms end in [0,q), the lazy forms inside their "
+                 "documented ranges; R-FAMILY(ntt): the polysmallmod NTT wrappers reach the transform of their direction "
+                 "and laziness; root determinism: try_primitive_root (the only entropy user) is called only from "
+                 "try_minimal_primitive_root, which scans (degree+1)/2 successive odd powers and keeps the minimum.",
+                 "that the transform equals evaluation at the odd powers of a primitive root in bit-reversed order, "
+                 "invertibility, the convolution property.")
+    r_range.run(facts, rep)
+    r_family.run_ntt(facts, rep)
+    # root determinism (who-may-call + loop shape)
+    R = "R-ROOT"
+    rep.rule(R, "the random start of try_primitive_root is confined: it is called only from try_minimal_primitive_root, whose "
+             "loop visits (degree+1)/2 successive odd powers (multiplier root^2) and keeps the minimum")
+    cg = facts.callgraph()
+    tp = "util::number_theory::try_primitive_root"
+    tm = "util::number_theory::try_minimal_primitive_root"
+    callers = sorted({p for p, es in cg.items() if any(t == tp for t, _ in es)})
+    if rep.anchor(R, tp, tp in facts.hir) and rep.anchor(R, tm, tm in facts.hir):
+        rep.fn(tm)
+        if callers == [tm]:
+            rep.ok(R, "who-may-call", "try_primitive_root is called only from try_minimal_primitive_root", facts.loc(tm))
+        else:
+            rep.violation(R, "who-may-call", "try_primitive_root (random start) is called from %s: the root handed to the "
+                          "tables depends on the random draw, so independently built contexts transform differently" %
+                          [c for c in callers if c != tm], facts.loc(tp))
+        from r_encbound import render
+        from facts import walk as _w, callee as _c, strip as _s, local_of as _lo
+        body = facts.hir[tm]
+        loops = [x for x in _w(body) if x.get("k") == "For"]
+        ok = False
+        for L in loops:
+            r = render(L["iter"])
+            has_min = any(x.get("k") == "If" and _s(x["c"]).get("k") == "Bin" and _s(x["c"]).get("op") == "<" for x in _w(L["body"]))
+            steps = [x for x in _w(L["body"]) if x.get("k") == "Assign" and (_c(_s(x["rhs"])) or {}).get("name") == "multiply_u64_mod"]
+            sq = any((_c(x) or {}).get("name") == "multiply_u64_mod" and len(x.get("args", [])) >= 2 and
+                     _lo(x["args"][0]) and _lo(x["args"][1]) and _lo(x["args"][0])[0] == _lo(x["args"][1])[0] for x in _w(body))
+            if "degree" in r and "/ 2" in r and "+ 1" in r.replace("1 + degree", "degree + 1") and has_min and steps and sq:
+                ok = True
+        if ok:
+            rep.ok(R, "scan", "the scan covers (degree+1)/2 successive odd powers (step root^2) and keeps the minimum", facts.loc(tm))
+        else:
+            rep.violation(R, "scan", "try_minimal_primitive_root no longer scans (degree+1)/2 successive odd powers keeping the "
+                          "minimum: the result depends on the random start", facts.loc(tm))
+    return rep
+
+
 def c11(facts, tier):
     rep = Report("C11", tier, facts,
                  "R-PAIR(batch): BatchEncoder.encode scatters and decode gathers through the same index-map field with "
@@ -584,6 +636,7 @@ def c13(facts, tier):
 
 CHECKS = {
     "C01": c01,
+    "C09": c09,
     "C02": c02,
     "C16": c16,
     "C13": c13,
